@@ -145,6 +145,15 @@ def reader_streams(quick, seed):
     dl = F.lzma2_unraw(F.lzma2_raw(t1, 1 << 16, pre=(("delta", 3),)), 1 << 16)
     S.append(dict(name="delta", dec={"kind": "delta", "distance": 3}, data=dl, expect=t1, bounds=[0, len(dl)], exact=False,
                   unframed=True))
+    # many small end-marker streams: whether the normalisation after the end marker fetches one more byte depends on the
+    # coder state, so the "fault on exactly the last byte" scripts are applied to a population of them
+    for i in range(40 if quick else 200):
+        d = F.gen_data(("text", "mixed", "random", "periodic")[i % 4], 20 + 7 * i % 300 + i, seed * 100 + i)
+        S.append(dict(name=f"lzma_eos_mini{i}", dec={"kind": "lzma"}, data=F.assemble(F.lzma_alone(d, 4096)), expect=d, bounds=[0, 13],
+                      exact=True, mini=True, group="lzma_eos_mini"))
+        lz = F.lz_file([d], 4096)
+        S.append(dict(name=f"lzip_mini{i}", dec={"kind": "lzip"}, data=F.assemble(lz), expect=d, bounds=[0, 6], exact=True, mini=True,
+                      group="lzip_mini", layout=[(k, a, b_) for (k, a, b_, _) in F.layout(lz)], concat={}))
     main, call, jump, rc = bcj2_streams(5000, seed)
     S.append(dict(name="bcj2", dec={"kind": "bcj2", "bcj2_size": len(main)}, data=main, expect=main, bounds=[0, len(main)],
                   exact=False, inputs=[B.hexs(call), B.hexs(jump), B.hexs(rc)]))
@@ -260,7 +269,7 @@ def judge_reader(s, job, r, need, declared):
     fault = "trunc" if cut and not kinds else (kinds[0] if kinds else ("chunk" if sc.get("chunk") else "none"))
     if cut and kinds:
         fault = "trunc+" + kinds[0]
-    base = {"side": "reader", "reader": name, "dec": s["dec"]["kind"], "fault": fault}
+    base = {"side": "reader", "reader": s.get("group", name), "dec": s["dec"]["kind"], "fault": fault}
     base["cut_at_zero"] = bool(cut and trunc == 0)
     base["cut_in"] = next((k for (k, a, b_) in s.get("layout", []) if cut and a <= trunc < b_), "")
     base["fault_class"] = "cut" if cut else "err" if "err" in kinds else "intr" if ("intr" in kinds or sc.get("intr_every")) else \
@@ -305,6 +314,12 @@ def judge_reader(s, job, r, need, declared):
     if benign and ed is None and (o != "ok" or not r.get("eq")):
         v.append((f"{name}: short / interrupted reads changed the result: {o} {r.get('k', '')} {r.get('m', '')} after {r['n']} "
                   f"bytes ({sc})", dict(base, outcome="short_io_not_transparent")))
+    # callers do call read() again after an error: what such calls hand out is data like any other
+    if o == "err" and r.get("bytes_after_err", 0) > 0 and r.get("first_diff") is not None \
+            and r["first_diff"] >= r["n"] - r["bytes_after_err"]:
+        v.append((f"{name}: after returning Err({r.get('k')}: {r.get('m')}) the reader went on to return {r['bytes_after_err']} bytes that "
+                  f"differ from the original (first difference at {r['first_diff']}) under {sc}",
+                  dict(base, outcome="wrong_bytes_after_error")))
     if o == "ok" and r.get("eof_then_data"):
         v.append((f"{name}: data returned after end of stream was reported", dict(base, outcome="eof_then_data")))
     return v
@@ -478,10 +493,21 @@ def run(tier, replay=None):
 
         def mk(script, src):
             j = dict(op="decode", id=f"{s['name']}/{len(jobs)}", base="s_" + s["name"], dec=s["dec"], script=script,
-                     inputs=s.get("inputs", []), bufs=[4096, 100, 1], out_limit=limit)
+                     inputs=s.get("inputs", []), bufs=[4096, 100, 1], out_limit=limit, probe_more=16)
             jobs.append(j)
             meta.append((s, src))
 
+        if s.get("mini"):
+            # the last bytes of the coded stream: cut by 1..3, and an error / short read / interrupt on each of the last calls
+            body_end = next((b_ for (k_, a_, b_) in s.get("layout", []) if k_ == "LBODY"), need)
+            for tt in (body_end - 1, body_end - 2, body_end - 3, need - 1):
+                if 0 <= tt < need:
+                    mk({"trunc": tt}, "mini:trunc")
+            last_calls = [i for i, o_ in off_at.items() if body_end - 3 <= o_ < body_end]
+            for cc in last_calls:
+                mk({"faults": [{"call": cc, "kind": "err", "err": "PermissionDenied"}]}, "mini:err")
+                mk({"faults": [{"call": cc, "kind": "intr"}]}, "mini:intr")
+            continue
         for a in rscripts:
             t, cidx, k = a["trunc"], a["call"], a["k"]
             full = t == a["n"]
@@ -532,7 +558,7 @@ def run(tier, replay=None):
             fk = sc["faults"][0]["kind"] if sc.get("faults") else ("chunk" if sc.get("chunk") else "trunc")
             where = sc["trunc"] if sc.get("trunc") is not None and not sc.get("faults") else \
                 s["off_at"].get(sc["faults"][0]["call"], s["need"]) if sc.get("faults") else 0
-            classes.add((s["name"], fk + ("+trunc" if sc.get("faults") and sc.get("trunc") is not None else ""), pos_class(s, where)))
+            classes.add((s.get("group", s["name"]), fk + ("+trunc" if sc.get("faults") and sc.get("trunc") is not None else ""), pos_class(s, where)))
     ctx.cov["reader_runs"] = len(jobs)
 
     # ---------------- stage 2b: every script on every real writer
@@ -591,11 +617,11 @@ def run(tier, replay=None):
         if i in viol_runs or r["o"] not in ("ok", "err"):
             continue
         sc = j["script"]
-        key = (s["name"], sc["faults"][0]["kind"] if sc.get("faults") else "chunk" if sc.get("chunk") else "trunc")
+        key = (s.get("group", s["name"]), sc["faults"][0]["kind"] if sc.get("faults") else "chunk" if sc.get("chunk") else "trunc")
         if len(pick[key]) < max(1, want // 5):
             pick[key].append(i)
     sel = [i for v in pick.values() for i in v]
-    ljobs = [dict(jobs[i], log=True) for i in sel]
+    ljobs = [dict(jobs[i], log=True, probe_more=0) for i in sel]      # the monitor judges the run up to its first result
     lres = B.run_jobs(ljobs, defs)
     ev_runs = []
     for i, r in zip(sel, lres):
@@ -666,7 +692,7 @@ def run(tier, replay=None):
     ctx.cov["rule"] = ("one evaluation = one run of a real reader / writer under one concrete fault script derived from a TLC "
                        "script; distinct = (reader or writer, fault kind, record-relative position class of the fault) counted "
                        "only when the wrapper actually delivered the fault (truncation: the reader hit the cut)")
-    ctx.cov["readers"] = [s["name"] for s in usable]
+    ctx.cov["readers"] = sorted(set(s.get("group", s["name"]) for s in usable))
     ctx.cov["writers"] = [w["name"] for w in writers]
     ctx.cov["asbuilt"] = ab
     by_out = collections.Counter((r["o"]) for r in results)
@@ -692,8 +718,8 @@ def run_replay(ctx, path):
     rp = json.load(open(path))["replay"]
     if rp["kind"] == "reader":
         job = dict(op="decode", id="replay", input=rp["input"], expect=rp["expect"], dec=rp["dec"], script=rp["script"],
-                   inputs=rp.get("inputs", []), bufs=rp.get("bufs", [4096]), out_limit=rp.get("out_limit"))
-        clean = dict(job, script={}, id="clean")
+                   inputs=rp.get("inputs", []), bufs=rp.get("bufs", [4096]), out_limit=rp.get("out_limit"), probe_more=16)
+        clean = dict(job, script={}, id="clean", probe_more=0)
         c, r = B.run_jobs([clean, job])
         s = {"name": rp["stream"], "dec": rp["dec"]}
         print(json.dumps({k: v for k, v in r.items() if k not in ("io",)}))
